@@ -90,11 +90,27 @@ macro_rules! forward_display {
         }
     };
 }
+// Radix formatting of a negative machine word would print its two's complement (ffffffffffffff01 for
+// -255) while the same value in big representation prints sign and magnitude (-ff); print the latter
+// for both.
+macro_rules! forward_radix_display {
+    ($impl:ident) => {
+        impl fmt::$impl for NInt {
+            fn fmt(&self, formatter: &mut fmt::Formatter) -> fmt::Result {
+                match self {
+                    NInt::Small(n) if *n < 0 => fmt::$impl::fmt(&BigInt::from(*n), formatter),
+                    NInt::Small(n) => fmt::$impl::fmt(n, formatter),
+                    NInt::Big(n) => fmt::$impl::fmt(n, formatter),
+                }
+            }
+        }
+    };
+}
 forward_display!(Display);
-forward_display!(LowerHex);
-forward_display!(UpperHex);
-forward_display!(Binary);
-forward_display!(Octal);
+forward_radix_display!(LowerHex);
+forward_radix_display!(UpperHex);
+forward_radix_display!(Binary);
+forward_radix_display!(Octal);
 
 macro_rules! impl_binary {
     ($imp:ident, $method:ident, $func:expr) => {
